@@ -644,6 +644,10 @@ func oracleC15(op string, a []string) string {
 			if showDescs(back) != showDescs(l) {
 				return "FAIL round trip differs: " + showDescs(back)
 			}
+			other := nasType.QoSFlowDescs{{QFI: 63, OperationCode: 1, Parameters: nasType.QoSFlowParameterList{&nasType.QoSFlow5QI{FiveQI: 255}}}}
+			if r := staleResult(func() []byte { x, _ := l.MarshalBinary(); return x }, func() []byte { x, _ := other.MarshalBinary(); return x }); r != "" {
+				return "FAIL QoSFlowDescs.MarshalBinary: " + r
+			}
 			return "pass"
 		}
 		l, ok := parseRulesText(a[1])
@@ -676,6 +680,10 @@ func oracleC15(op string, a []string) string {
 		}
 		if showRules(back) != showRules(l) {
 			return "FAIL round trip differs: " + showRules(back)
+		}
+		otherR := nasType.QoSRules{{Identifier: 255, Operation: 1, QFI: 63, Precedence: 255}}
+		if r := staleResult(func() []byte { x, _ := l.MarshalBinary(); return x }, func() []byte { x, _ := otherR.MarshalBinary(); return x }); r != "" {
+			return "FAIL QoSRules.MarshalBinary: " + r
 		}
 		return "pass"
 	}
